@@ -33,6 +33,7 @@ func checkC13(r *core.Run) {
 	c13Select(r, p)
 	c13Amounts(r, p)
 	c13BatchReadsToEnd(r, p, "R-C13-amounts")
+	c13MessagePush(r, p, "R-C13-amounts")
 	c13Guards(r, p)
 	c13Dispatch(r, p)
 	c13Effects(r, p)
@@ -1720,4 +1721,68 @@ func c13BatchReadsToEnd(r *core.Run, p *core.Program, rule string) {
 		}
 	}
 	r.Check(n >= 1 && bad == "", rule, key, p.Pos(rd.Pos()), fmt.Sprintf("the reading loop ends only at the end of the input (%d exit(s))", n), bad)
+}
+
+// c13MessagePush: the -msg output is OP_RETURN followed by one push of the message.  The length in front of
+// the message is a script push opcode (lib/btc.WritePutLen: direct push up to 75, OP_PUSHDATA1/2/4 above), not
+// the transaction CompactSize (lib/btc.WriteVlen): the two agree only up to 75 bytes, above that the CompactSize
+// byte is read as another opcode and the output is neither push-only nor carries the message.  Rule: a buffer
+// whose Bytes() become an output's Pk_script in make_signed_tx receives lengths only through WritePutLen.
+func c13MessagePush(r *core.Run, p *core.Program, rule string) {
+	fn := c13w(p, "make_signed_tx")
+	key := "outputs/message-push-length"
+	if fn == nil {
+		r.Fail(rule, key, "-", "make_signed_tx not found")
+		return
+	}
+	bufs := map[ssa.Value]bool{}
+	an.Instrs(fn, func(i ssa.Instruction) {
+		st, ok := i.(*ssa.Store)
+		if !ok {
+			return
+		}
+		fa, ok := st.Addr.(*ssa.FieldAddr)
+		if !ok || an.FieldNameOf(fa) != "Pk_script" {
+			return
+		}
+		v := st.Val
+		for {
+			if sl, ok := v.(*ssa.Slice); ok {
+				v = sl.X
+				continue
+			}
+			break
+		}
+		if c, ok := v.(*ssa.Call); ok && an.CallName(c) == "(*bytes.Buffer).Bytes" && len(c.Call.Args) == 1 {
+			bufs[c.Call.Args[0]] = true
+		}
+	})
+	if len(bufs) == 0 {
+		r.OK(rule, key, p.Pos(fn.Pos()), "no output script of make_signed_tx is assembled in a bytes.Buffer: no length writer to get wrong")
+		return
+	}
+	n, bad := 0, ""
+	an.Instrs(fn, func(i ssa.Instruction) {
+		c, ok := i.(*ssa.Call)
+		if !ok {
+			return
+		}
+		name := an.CallName(c)
+		if !strings.HasPrefix(name, c13Btc) {
+			return
+		}
+		for _, a := range c.Call.Args {
+			if mi, ok := a.(*ssa.MakeInterface); ok {
+				a = mi.X
+			}
+			if !bufs[a] {
+				continue
+			}
+			n++
+			if name != c13Btc+"WritePutLen" {
+				bad = fmt.Sprintf("%s writes into the buffer that becomes an output script at %s: a script push length must be written by WritePutLen (the CompactSize form differs from the push opcode for every length above 75)", name, p.Pos(c.Pos()))
+			}
+		}
+	})
+	r.Check(bad == "", rule, key, p.Pos(fn.Pos()), fmt.Sprintf("%d output-script buffer(s), %d lib/btc writer call(s) into them, all WritePutLen", len(bufs), n), bad)
 }
